@@ -215,6 +215,7 @@ package fans
 //@   props C19
 //@   requires cmdWF(fan)
 //@   ensures err != nil ==> fan.Pwm == old(fan.Pwm)
+//@   ensures[C19.once] forall e string :: started[e] == old(started)[e] || (fan.Config.Cmd.GetPwm != nil && e == fan.Config.Cmd.GetPwm.Exec && started[e] == old(started)[e] + 1)
 //@   modifies fan.Pwm, procWorld, started
 //@ func (*CmdFan).GetRpm
 //@   params (fan)
@@ -226,6 +227,7 @@ package fans
 //@   ensures err == nil && fan.Config.Cmd.GetRpm != nil ==> fan.Rpm == result
 //@   ensures fan.Config.Cmd.GetRpm == nil ==> fan.Rpm == old(fan.Rpm) && result == 0 && err == nil
 //@   ensures err != nil ==> fan.Rpm == old(fan.Rpm)
+//@   ensures[C19.once] forall e string :: started[e] == old(started)[e] || (fan.Config.Cmd.GetRpm != nil && e == fan.Config.Cmd.GetRpm.Exec && started[e] == old(started)[e] + 1)
 //@   modifies fan.Rpm, procWorld, started, lastRpmRead, supportsResult
 //@ func (*CmdFan).SetPwm
 //@   params (fan, pwm)
@@ -236,6 +238,7 @@ package fans
 //@   ensures pwmWrites == old(pwmWrites)[fan := old(pwmWrites)[fan] + 1] && lastPwm == old(lastPwm)[fan := pwm]
 //@   ghostret lastPwmErr[fan] := err != nil
 //@   ensures lastPwmErr == old(lastPwmErr)[fan := (err != nil)]
+//@   ensures[C19.once] forall e string :: started[e] == old(started)[e] || (fan.Config.Cmd.SetPwm != nil && e == fan.Config.Cmd.SetPwm.Exec && started[e] == old(started)[e] + 1)
 //@   modifies pwmWrites, lastPwm, procWorld, started, lastPwmErr
 //@   loop 1 "for _, arg := range conf.Args"
 //@     invariant -1 <= rangeindex && arrayOf(args) >= old(W)
